@@ -23,6 +23,7 @@ def main(argv=None) -> int:
     ap.add_argument("--tier", default=os.environ.get("VERIF_TIER", "quick"), choices=["quick", "thorough"])
     ap.add_argument("--explain", default=None)
     ap.add_argument("--repo", default=None)
+    ap.add_argument("--dry", action="store_true", help="do not write evidence / violation files (sensitivity runs)")
     args = ap.parse_args(argv)
     pid = args.pid.upper()
     if args.explain:
@@ -35,6 +36,7 @@ def main(argv=None) -> int:
     except ValueError:
         seed = 0
     rep = Report(pid, args.tier, seed)
+    rep.dry = args.dry
     try:
         try:
             mod = importlib.import_module(f"pst.rules.{pid.lower()}")
@@ -43,6 +45,21 @@ def main(argv=None) -> int:
             return 2
         project = Project(args.repo)
         mod.run(project, rep, args.tier)
+        if args.tier == "thorough" and not args.dry:
+            from .selftest.run import sensitivity
+            res = sensitivity(pid, project.repo)
+            rep.extra["sensitivity"] = res
+            rep.extra["sensitivity_summary"] = {
+                "breaking_edits": sum(1 for r in res if r["expect"] == "refute"),
+                "refuted": sum(1 for r in res if r["expect"] == "refute" and r["got"] == "refute"),
+                "neutral_edits": sum(1 for r in res if r["expect"] == "silent"),
+                "silent": sum(1 for r in res if r["expect"] == "silent" and r["got"] == "silent")}
+            for r in res:
+                if r["got"] != r["expect"]:
+                    if r["got"] == "anchor-missing":
+                        rep.note(f"sensitivity edit #{r['k']} no longer applies to {r['file']} (source changed)")
+                    else:
+                        rep.errors.append(f"SELFTEST {r['file']}: edit `{r['new']}` expected {r['expect']}, checker gave {r['got']}")
         return rep.finish()
     except AnalysisError as e:
         rep.errors.append(str(e))
